@@ -276,6 +276,41 @@ def dir_to_sibling_symlink(rng, repo, pool, files, dirs):
     return d
 
 
+SIBLING_DIR_NAMES = ["core", "deep", "old", "new", "util", "x", "b c", "dé", "lib", "src", "pkg2"]
+
+
+def pure_rename_in_place(rng, repo, files, dirs, tagd):
+    """git mv without editing, inside one directory: a file, or a whole directory, gets a new name next to
+    its old one.  Both tree entries of the parent carry the same object id (a blob resp. a tree id that
+    leaves under one name and arrives under another); git diff --no-renames lists every file below the old
+    name as deleted and every file below the new name as added.  Returns True when something moved."""
+    if dirs and (not files or rng.random() < 0.4):
+        d = rng.choice(dirs)
+        if os.path.islink(repo.abs(d)):
+            return False
+        parent = os.path.dirname(d)
+        n = rng.choice(SIBLING_DIR_NAMES)
+        q = os.path.join(parent, n) if parent else n
+        if os.path.lexists(repo.abs(q)):
+            return False
+        repo.do(["mv", d, q])
+        repo.pure_renames = getattr(repo, "pure_renames", 0) + 1
+        tagd("pure-rename-dir-in-place")
+        return True
+    if not files:
+        return False
+    f = rng.choice(files)
+    parent = os.path.dirname(f)
+    n = rng.choice(NAMES)
+    q = os.path.join(parent, n) if parent else n
+    if os.path.lexists(repo.abs(q)):
+        return False
+    repo.do(["mv", f, q])
+    repo.pure_renames = getattr(repo, "pure_renames", 0) + 1
+    tagd("pure-rename-file-in-place")
+    return True
+
+
 def mutate_worktree(rng, repo, pool, hist):
     """One random work-tree operation (adds, edits, deletions, renames, chmod, swaps, symlinks)."""
     files, links, dirs = repo.walk()
@@ -289,6 +324,9 @@ def mutate_worktree(rng, repo, pool, hist):
     if rng.random() < 0.07:
         vendored_copies(rng, repo, pool, files, links, tagd)
         return
+    if (files or dirs) and rng.random() < 0.10:
+        if pure_rename_in_place(rng, repo, files, dirs, tagd):
+            return
     if dirs and rng.random() < 0.05:
         if dir_to_sibling_symlink(rng, repo, pool, files, dirs):
             tagd("dir->symlink-to-sibling-dir")
@@ -409,11 +447,16 @@ def build_history(rng, repo, hist, commits_target):
             repo.do(["write", p, rand_content(rng, pool), rng.random() < 0.1])
     while ncommit < commits_target and steps < 200:
         steps += 1
+        moved_before = getattr(repo, "pure_renames", 0)
         for _ in range(rng.choice([1, 1, 2, 3])):
             mutate_worktree(rng, repo, pool, hist)
         repo.do(["git", "add", "-A"])
         repo.do(["git", "commit", "-q", "--allow-empty", "-m", "c%d" % ncommit])
         ncommit += 1
+        if getattr(repo, "pure_renames", 0) != moved_before:
+            # remember the commit: run_script_case sends (parent, this commit) through the CLI more often
+            rc, o = repo.git("rev-parse", "HEAD")
+            repo.rename_commits = getattr(repo, "rename_commits", []) + [o.decode().strip()]
         r = rng.random()
         if r < 0.18:
             nbranch += 1
